@@ -210,7 +210,13 @@ def check_fit(case, ctx):
         inner = sma[2]
         outer = min(sma[-2] * 0.9, 2.5 * g['scale'], 0.9 * edge)
         region = (r > inner) & (r < outer)
-        if region.sum() > 50:
+        # the model can only be as good as the isophotes it interpolates:
+        # non-converged ones (stop code != 0, frozen geometry) are outside
+        # the claim
+        conv = all(s.stop_code == 0 for s in iso if inner <= s.sma <= outer * 1.2)
+        if not conv:
+            ctx.event('model_region_not_converged')
+        if region.sum() > 50 and conv:
             rel = np.abs(model[region] / img[region] - 1)
             unpainted = float(np.mean(model[region] == 0))
             if unpainted > 0.005 or np.percentile(rel, 95) > 0.08:
@@ -282,17 +288,24 @@ def check_to_polar(case, ctx):
     require(rv.size == xs.size, 'to_polar_array_shape')
     ctx.mark(len(xs) >= 2)
     for k in range(len(xs)):
+        dx, dy = xs[k] - case['x0'], ys[k] - case['y0']
+        if 0 < math.hypot(dx, dy) < 1e-100:
+            # offsets whose squares are subnormal are not pixel coordinates
+            ctx.event('subnormal_offset_skipped')
+            continue
         with warnings.catch_warnings():
             warnings.simplefilter('ignore')
             r, a = geom.to_polar(float(xs[k]), float(ys[k]))
-        dx, dy = xs[k] - case['x0'], ys[k] - case['y0']
         require(close(r, math.hypot(dx, dy), 1e-12, 1e-12), 'to_polar_radius')
         if not close(r, rv[k], 1e-12, 1e-12):
             raise Violation('to_polar_scalar_vs_array',
                             f'radius {r} (scalar) vs {rv[k]} (array) at '
                             f'({xs[k]},{ys[k]})')
         d = abs(a - av[k]) % (2 * math.pi)
-        if min(d, 2 * math.pi - d) > 1e-9 and math.hypot(dx, dy) > 1e-9:
+        # (both forms use asin(|dy| / r), ill-conditioned near the y axis:
+        # one ulp in the ratio is ~1e-8 rad, and math.asin / numpy.arcsin
+        # need not round alike)
+        if min(d, 2 * math.pi - d) > 1e-7 and math.hypot(dx, dy) > 1e-9:
             raise Violation('to_polar_scalar_vs_array',
                             f'angle {a} (scalar) vs {av[k]} (array) at '
                             f'({xs[k]},{ys[k]}), pa {case["pa"]}')
